@@ -152,6 +152,16 @@ func runBuilt(c gpack.Case, sp *gpack.Spec, p pack.Pack) *pbt.Result {
 			return pbt.Fail("%s: body does not start with the reference common header %x (got %x)", c.Type, h, body[:min(len(body), len(h))])
 		}
 	}
+	// a receiver also sees cut-off messages (and recovers from the decoder's panic); whatever failed before, a
+	// well-formed message must decode afterwards
+	for _, cut := range []int{len(b) / 3, len(b) - 1} {
+		if cut > 0 && cut < len(b) {
+			func() {
+				defer func() { recover() }()
+				decode(sp, append([]byte(nil), b[:cut]...))
+			}()
+		}
+	}
 	for _, extra := range [][]byte{nil, {0xAB, 0xCD, 0xEF}} {
 		buf := append(append([]byte(nil), b...), extra...)
 		q, left := decode(sp, buf)
